@@ -169,8 +169,9 @@ Theorem fetch_gate :
 Proof. exact fetch_gate_plan_lemma. Qed.
 Print Assumptions fetch_gate.
 (* T9b: the gate reads FetchInfo.RootFields only: a fetch for which the planner recorded no root
-   field is never held back, whatever the decisions (the planner records none for an entity
-   fetch planned below an inline fragment -- finding gate-entity-fetch-below-fragment-has-no-root-fields) *)
+   field is never held back, whatever the decisions (the planner used to record none for an
+   entity fetch planned below an inline fragment -- repaired finding
+   gate-entity-fetch-below-fragment-has-no-root-fields; the request-level fetch_gate clause watches it) *)
 Theorem fetch_gate_without_root_fields :
   forall (has_authorization : bool) (optype : N) (ds : bytes) (k : cache),
     is_fetch_authorized_from_cache has_authorization optype ds [] k = true.
